@@ -10,6 +10,8 @@ Tie (model = lean/Eliot/Model/LogCall.lean through Driver/C18.lean), per call:
   inspect.getcallargs   <-> `getcallargs`
   logging_wrapper (raw) <-> `wrapper`                      (result + both messages, field by field)
   decorated call        <-> `decorated` (boltons outer function + wrapper), incl. the locals of the body
+  log_call over an ordinary decorator (functools.wraps pass-through, one that adds a parameter, ones without wraps), with
+  include_args taken from what inspect.signature shows <-> `decorated` on the wrapper's own parameters
   stacked decoration    <-> `decoratedTwice` (log_call(**outer)(log_call(**inner)(f)): four messages, the inner action inside the outer)
   decoration            <-> `decorate` (ValueError for include_args naming no parameter)
   `posOnlyRespected` => the model's `bindingAgrees` flag (evaluated sufficient condition for the
@@ -585,6 +587,118 @@ def report(ctx, case, fails, msgs):
         ctx.count("oracle-failed:" + ks)
 
 
+
+# ---- log_call on top of an ordinary decorator ---------------------------------------------------------
+
+WRAPPERS = {
+    # name: (parameters of the wrapper itself, uses functools.wraps, forwards)
+    "wraps-passthrough": ([dict(name="args", kind="varPos"), dict(name="kwargs", kind="varKw")], True, "fn(*args, **kwargs)"),
+    "plain-passthrough": ([dict(name="args", kind="varPos"), dict(name="kwargs", kind="varKw")], False, "fn(*args, **kwargs)"),
+    "wraps-extra": ([dict(name="extra", kind="posOrKw"), dict(name="args", kind="varPos"), dict(name="kwargs", kind="varKw")], True, "fn(*args, **kwargs)"),
+    "renamed": ([dict(name="a", kind="varPos"), dict(name="k", kind="varKw")], False, "fn(*a, **k)"),
+}
+
+
+def gen_wrapped_case(rng):
+    names = rng.sample(["x", "y", "user", "password", "n"], rng.randint(1, 4))
+    kinds = sorted((rng.choice(["posOrKw", "posOrKw", "kwOnly"]) for _ in names), key=RANK.get)
+    params = [dict(name=n, kind=k) for n, k in zip(names, kinds)]
+    P = [p for p in params if p["kind"] == "posOrKw"]
+    for p in P[len(P) - rng.randint(0, len(P)):]:
+        p["default"] = gen_val(rng)
+    for p in params:
+        if p["kind"] == "kwOnly" and rng.random() < 0.5:
+            p["default"] = gen_val(rng)
+    wrapper = rng.choice(sorted(WRAPPERS))
+    pos, kw, tag = gen_call(rng, params, "function", rng.random() < 0.85)
+    if wrapper == "wraps-extra":
+        pos = [gen_val(rng)] + pos
+    wsig, uses_wraps, _ = WRAPPERS[wrapper]
+    visible = [p["name"] for p in (params if uses_wraps else wsig)]   # what inspect.signature(target) shows
+    opts = dict(action_type=rng.choice([None, "app:act"]), include_args=None, include_result=rng.random() < 0.7)
+    if rng.random() < 0.7:
+        opts["include_args"] = rng.sample(visible, rng.randint(0, len(visible)))
+    return dict(kind="wrapped", wrapper=wrapper, sig=params, opts=opts, pos=pos, kw=kw,
+                body={"raise": rng.random() < 0.15, "ret": gen_val(rng)}, call=tag)
+
+
+def wrapped_source(case):
+    wsig, uses_wraps, forward = WRAPPERS[case["wrapper"]]
+    return "\n".join([
+        "import functools",
+        "def f(%s):" % sig_source(case["sig"]),
+        "    'doc of f'",
+        "    _l = dict(locals())",
+        "    _H.rec.append(_l)",
+        "    if _H.raise_: raise _H.exc",
+        "    _H.last = ('ret', _H.ret, tuple(sorted(((k, _H.freeze(v)) for k, v in _l.items()), key=lambda kv: kv[0])))",
+        "    return _H.last",
+        "def deco(fn):",
+        "    @functools.wraps(fn)" if uses_wraps else "    # no functools.wraps",
+        "    def w(%s):" % sig_source(wsig),
+        "        return %s" % forward,
+        "    return w",
+        "target = deco(f)",
+        "decorated = %s(deco(f))" % deco_line(case["opts"])[1:],
+    ]) + "\n"
+
+
+def observe_wrapped(case, msgs):
+    from eliot import log_call
+
+    H = _Helper()
+    g = {"__name__": MODNAME, "log_call": log_call, "_H": H}
+    obs = {}
+    try:
+        exec(wrapped_source(case), g)
+        obs["decorate"] = "ok"
+    except BaseException as e:  # noqa
+        obs["decorate"] = type(e).__name__
+        return obs
+    target, decorated = g["target"], g["decorated"]
+    obs["und"] = run_call(H, (lambda pos, kw: target(*pos, **kw)), case, msgs)
+    obs["dec"] = run_call(H, (lambda pos, kw: decorated(*pos, **kw)), case, msgs)
+    try:
+        b = inspect.signature(target, follow_wrapped=False).bind(*case["pos"], **dict((k, v) for k, v in case["kw"]))
+        b.apply_defaults()
+        obs["expected_bound"] = dict(b.arguments)
+    except TypeError:
+        obs["expected_bound"] = None
+    return obs
+
+
+def check_wrapped(case, obs):
+    """log_call over an ordinary decorator: still transparent, and what it logs are the arguments as Python binds them to the
+    callable it was given, never anything outside include_args"""
+    fails = []
+    if "dec" not in obs:
+        return [("decoration", "log_call(%r) raised %s at decoration time although include_args names parameters inspect.signature shows" % (
+            case["opts"], obs["decorate"]))]
+    u, d = obs["und"], obs["dec"]
+    if "ret" in u:
+        if "raised" in d:
+            fails.append(("transparency", "the callable returns, log_call'ed it raises %s (%s)" % (d["raised"], d["text"])))
+        elif not same_value(u["ret"], d["ret"]) or not d.get("identical", True):
+            fails.append(("transparency", "log_call'ed callable returns %r, the callable itself %r" % (d["ret"], u["ret"])))
+    elif "ret" in d or u["raised"] != d["raised"] or (u["from_body"] and not d["from_body"]):
+        fails.append(("transparency", "the callable raises %s, log_call'ed it %s" % (u["raised"], d.get("raised", "returns"))))
+    if fails or obs["expected_bound"] is None:
+        return fails
+    m = d["msgs"]
+    if len(m) != 2 or m[0].get("action_status") != "started":
+        return [("one-action", "not exactly one start and one end message: %r" % [(x.get("action_status"), x.get("task_level")) for x in m])]
+    start = {k: v for k, v in m[0].items() if k not in STRUCT_KEYS}
+    inc = case["opts"]["include_args"]
+    if inc is not None:
+        outside = [k for k in start if k not in inc]
+        if outside:
+            fails.append(("include-args", "the start message has %r although include_args is %r (start fields: %r)" % (outside, inc, start)))
+    want = {k: v for k, v in obs["expected_bound"].items() if k != "self" and (inc is None or k in inc)}
+    if not fails and (set(start) != set(want) or any(not (start[k] is want[k] or same_value(start[k], want[k])) for k in want)):
+        fails.append(("start-fields", "the start message holds %r, the call binds %r%s" % (start, want, "" if inc is None else " (restricted to %r)" % inc)))
+    return fails
+
+
 # ---- model side -----------------------------------------------------------------------------
 
 def enc(v):
@@ -766,9 +880,44 @@ def run(ctx):
     import eliot
 
     cases = gen_cases(ctx)
-    model = lean_driver("Driver/C18.lean", [model_case(c) for c in cases])
+    wrng = ctx.rng("wrapped")
+    wcases = [gen_wrapped_case(wrng) for _ in range(ctx.budget(60, 3000))] + [
+        # the documented use: keep a secret out of the log, on a function that already carries an ordinary decorator
+        dict(kind="wrapped", wrapper="wraps-passthrough", sig=[dict(name="user", kind="posOrKw"), dict(name="password", kind="posOrKw")],
+             opts=dict(action_type=None, include_args=["user"], include_result=True), pos=["v1", "v2"], kw=[], body={"raise": False, "ret": 1}, call="valid"),
+        dict(kind="wrapped", wrapper="wraps-extra", sig=[dict(name="user", kind="posOrKw"), dict(name="password", kind="kwOnly", default=None)],
+             opts=dict(action_type=None, include_args=["user"], include_result=False), pos=[0, "v1"], kw=[["password", "v2"]], body={"raise": False, "ret": 1}, call="valid"),
+    ]
     msgs, dest = setup_dest()
     try:
+        wobs = [observe_wrapped(c, msgs) for c in wcases]
+    finally:
+        eliot.remove_destination(dest)
+    # the model sees the callable log_call was given: the wrapper's own parameters, and as its body whatever the wrapper did
+    wmodel_cases = [dict(sig=WRAPPERS[c["wrapper"]][0], pos=c["pos"], kw=c["kw"], opts=c["opts"],
+                         meta=dict(module=MODNAME, qualname="f" if WRAPPERS[c["wrapper"]][1] else "deco.<locals>.w"),
+                         body={"raise": "raised" in o.get("und", {}), "ret": c["body"]["ret"]})
+                    for c, o in zip(wcases, wobs)]
+    model = lean_driver("Driver/C18.lean", [model_case(c) for c in cases] + wmodel_cases)
+    wmodel = model[len(cases):]
+    msgs, dest = setup_dest()
+    try:
+        for case, mo, obs in zip(wcases, wmodel, wobs):
+            ctx.case(case, nontrivial=case["opts"]["include_args"] is not None,
+                     tags=["form:wrapped-callable", "wrapper:" + case["wrapper"], "call:" + case["call"],
+                           "include_args:%s" % (case["opts"]["include_args"] is not None)])
+            if "dec" in obs and "bad" not in mo:
+                def shape(r):   # which exception the wrapped callable raised is its own business
+                    return dict(r, result={"raised": "*"} if "raised" in r["result"] else r["result"])
+                if shape(enc_run(obs["dec"])) != shape(strip_model_run(mo["decorated"])):
+                    ctx.broken_tie("correspondence:log_call-model", "log_call over an ordinary decorator differs from the model",
+                                   dict(case=case, part="wrapped", real=enc_run(obs["dec"]), model=strip_model_run(mo["decorated"])))
+                else:
+                    ctx.traces += 1
+            for oracle, text in check_wrapped(case, obs):
+                ctx.violation("log_call over an ordinary decorator [%s]: %s; def f(%s) under %s, %r, called with %r %r" % (
+                    oracle, text, sig_source(case["sig"]), case["wrapper"], case["opts"], case["pos"], dict((k, v) for k, v in case["kw"])),
+                    case, key={"oracle": oracle, "form": "wrapped-callable"})
         for case, mo in zip(cases, model):
             core = {k: case.get(k) for k in ("form", "sig", "opts", "outer_opts", "pos", "kw", "body")}
             try:
@@ -803,6 +952,16 @@ def replay(ctx, obj):
     if "case" in case and "part" in case:  # a recorded disagreement
         case = case["case"]
     msgs, dest = setup_dest()
+    if case.get("kind") == "wrapped":
+        try:
+            obs = observe_wrapped(case, msgs)
+            print(wrapped_source(case))
+            print({k: v for k, v in obs.items()})
+            for oracle, text in check_wrapped(case, obs):
+                ctx.violation("log_call over an ordinary decorator [%s]: %s" % (oracle, text), case, key={"oracle": oracle, "form": "wrapped-callable"})
+        finally:
+            eliot.remove_destination(dest)
+        return
     try:
         obs = observe(case, msgs)
         print("def f(%s)  [%s]  opts=%r  args=%r kw=%r" % (sig_source(case["sig"]), case["form"], case["opts"], case["pos"], case["kw"]))
